@@ -47,10 +47,17 @@ func quoted(s string) string {
 	return string(b)
 }
 
+// yamlNullText is how the YAML renderer spells a null: null, ~, Null, NULL, or "" (a key without a
+// value, block mappings only). The test runs its cases one by one; whoever changes it restores it.
+var yamlNullText = "null"
+
 func scalarText(v any) string {
 	switch x := v.(type) {
 	case nil:
-		return "null"
+		if yamlNullText == "" {
+			return "null" // flow context: a blank would not be a null there
+		}
+		return yamlNullText
 	case json.Number:
 		return string(x)
 	case litNum:
@@ -93,6 +100,12 @@ func yamlMap(b *bytes.Buffer, m map[string]any, indent int) {
 			b.WriteString("\n")
 			for _, el := range x {
 				b.WriteString(pad + "  - " + yamlFlow(el) + "\n")
+			}
+		case nil:
+			if yamlNullText == "" {
+				b.WriteString("\n") // `key:` - a key without a value is a null
+			} else {
+				b.WriteString(" " + yamlNullText + "\n")
 			}
 		default:
 			b.WriteString(" " + scalarText(x) + "\n")
